@@ -717,14 +717,29 @@ def _robots_origin(ctx, f):
     """The exception covers the control file *of the origin being visited*: scheme, host and port of the robots.txt URL are
     those of the request (hostname_with_port, not hostname: another port is another origin, one that no filter was asked about)."""
     ck = ctx.check
+    from .c20 import _str_parts, _merge_parts
     n = 0
-    for c in U.calls(f.node):
-        if U.attr_name(c) == 'format' and isinstance(c.func.value, ast.Constant) and isinstance(c.func.value.value, str) and 'robots.txt' in c.func.value.value:
-            n += 1
-            attrs = [a.attr if isinstance(a, ast.Attribute) else None for a in c.args]
-            ok = c.func.value.value.replace('{0}', '{}').replace('{1}', '{}') == '{}://{}/robots.txt' and attrs == ['scheme', 'hostname_with_port'] \
-                and all(norm_text(a.value) == norm_text(c.args[0].value) for a in c.args)
-            ck.expect(ok, 'C02-D4', f.qual, "robots.txt URL = '{}://{}/robots.txt'.format(scheme, hostname_with_port) of the request",
-                      'robots.txt is requested from %s: not the origin (scheme, host, port) of the URL being visited' % norm_text(c)[:90], f.loc(c))
+    for e in walk_no_nested(f.node):
+        # any spelling of the string: '{}://{}/robots.txt'.format(a, b), '%s://%s/robots.txt' % (a, b), a + '://' + b + '/robots.txt'
+        if not isinstance(e, (ast.Call, ast.BinOp)):
+            continue
+        try:
+            parts = _str_parts(e)
+        except Exception:
+            parts = None
+        if not parts:
+            continue
+        merged = _merge_parts(parts)
+        if not any(k == 'lit' and 'robots.txt' in v for k, v in merged):
+            continue
+        n += 1
+        syms = [v for k, v in merged if k == 'sym']
+        lits = [v for k, v in merged if k == 'lit']
+        ok = lits == ['://', '/robots.txt'] and len(syms) == 2 and syms[0].endswith('.scheme') and syms[1].endswith('.hostname_with_port') \
+            and syms[0].rsplit('.', 1)[0] == syms[1].rsplit('.', 1)[0]
+        ck.expect(ok, 'C02-D4', f.qual, "robots.txt URL = <scheme>://<hostname_with_port>/robots.txt of the request",
+                  'robots.txt is requested from %s: not the origin (scheme, host, port) of the URL being visited'
+                  % ' + '.join(v if k == 'sym' else repr(v) for k, v in merged)[:110], f.loc(e))
+        break
     if n == 0:
         ck.bad('C02-D4', f.qual, 'robots.txt URL built from the request', 'the construction of the robots.txt URL was not recognised', f.loc())
